@@ -6,12 +6,14 @@ returns the match pattern / negative raises EmptyNegativeAssertionException - fo
 depth' follows because these are post-conditions of each step and Inv is preserved (induction on the expression)."""
 from .. import vcrun
 from . import _b1, _groups as GR
+from . import _f7
 
 LEVEL = "proof"
 
 
 def run(rep, tier):
     vcrun.run_functions(rep, GR.COMBINATORS, tier)
+    _f7.decide_empty(rep)      # F9: Empty type iff empty text, for every text
     _b1.run(rep, tier, ["empty", "total"], "Empty type iff empty text")
     rep.trusted += GR.TRUST
     rep.assumptions += ["Either with the empty pattern as FIRST alternative is excluded by the property"]
